@@ -12,19 +12,22 @@ CONSTANTS GKeys, MaxOps, NTrees
 
 T(k, c) == [k |-> k, c |-> c]
 Lf(k) == T(k, <<>>)
+\* a Reference node pointing at note t (9 = a note that does not exist); a leaf linking to the notes rs
+Rf(t) == [k |-> "R", c |-> <<>>, tgt |-> t]
+Ll(rs) == [k |-> "L", c |-> <<>>, refs |-> rs]
 
 Tree(i) ==
-    CASE i = 1 -> T("D", <<T("S", <<Lf("L")>>)>>)
-      [] i = 2 -> T("D", <<T("S", <<Lf("L"), T("S", <<Lf("L")>>), T("S", <<Lf("R")>>)>>)>>)
-      [] i = 3 -> T("D", <<Lf("L"), T("BL", <<T("S", <<>>), T("S", <<Lf("L")>>)>>), Lf("L")>>)
-      [] i = 4 -> T("D", <<T("S", <<Lf("T"), Lf("L"), Lf("R")>>)>>)
-      [] i = 5 -> T("D", <<T("Q", <<Lf("L"), Lf("L")>>), Lf("R")>>)
-      [] i = 6 -> T("D", <<T("S", <<T("OL", <<T("S", <<T("BL", <<T("S", <<>>)>>)>>)>>), Lf("Raw"), Lf("HR")>>)>>)
+    CASE i = 1 -> T("D", <<T("S", <<Ll(<<2>>)>>)>>)
+      [] i = 2 -> T("D", <<T("S", <<Lf("L"), T("S", <<Ll(<<1, 9>>)>>), T("S", <<Rf(2)>>)>>)>>)
+      [] i = 3 -> T("D", <<Lf("L"), T("BL", <<T("S", <<>>), T("S", <<Ll(<<1>>)>>)>>), Rf(1)>>)
+      [] i = 4 -> T("D", <<T("S", <<[k |-> "T", c |-> <<>>, refs |-> <<2>>], Lf("L"), Rf(1)>>)>>)
+      [] i = 5 -> T("D", <<T("Q", <<Ll(<<2>>), Lf("L")>>), Rf(9)>>)
+      [] i = 6 -> T("D", <<T("S", <<T("OL", <<T("S", <<T("BL", <<T("S", <<>>)>>)>>)>>), Lf("Raw"), Lf("HR"), Rf(2), Ll(<<1>>)>>)>>)
       [] i = 7 -> T("D", <<>>)
-      [] i = 8 -> T("D", <<T("S", <<Lf("T"), Lf("T"), T("Q", <<Lf("T"), Lf("R")>>), Lf("HR"), Lf("Raw"), Lf("Raw"), Lf("R"), Lf("R")>>)>>)
-      [] i = 9 -> T("D", <<T("S", <<T("BL", <<T("S", <<Lf("Raw"), Lf("L")>>), T("S", <<T("Q", <<Lf("L")>>), Lf("T")>>)>>),
-                                    T("S", <<T("S", <<T("S", <<Lf("L")>>)>>)>>)>>),
-                          T("S", <<Lf("L")>>)>>)
+      [] i = 8 -> T("D", <<T("S", <<Lf("T"), Lf("T"), T("Q", <<Lf("T"), Rf(1)>>), Lf("HR"), Lf("Raw"), Lf("Raw"), Rf(2), Rf(2)>>)>>)
+      [] i = 9 -> T("D", <<T("S", <<T("BL", <<T("S", <<Lf("Raw"), Ll(<<2, 1>>)>>), T("S", <<T("Q", <<Lf("L")>>), Lf("T")>>)>>),
+                                    T("S", <<T("S", <<T("S", <<Ll(<<1>>)>>)>>)>>)>>),
+                          T("S", <<Rf(1)>>)>>)
       \* shapes that only one particular source text produces (the text is carried along):
       \* an item that starts with a list is merged into the enclosing list, what follows belongs to the last merged item
       [] i = 10 -> [k |-> "D", c |-> <<T("BL", <<T("S", <<T("BL", <<T("S", <<>>)>>), Lf("L")>>)>>)>>,
